@@ -349,10 +349,16 @@ def climon_case(jobs, keep, exit_code, cancel_cause, files, kinds, tags, ju, evs
         byname.setdefault(n, []).append(st)
     refused = any(GROUND[kinds[f]] == "refuse" and TAGMAP[tags.get(f, [None])[0]] == "err" for f in files)
     s = f"climon {jobs} {1 if keep else 0} {1 if refused else 0} {hx('postgres')} {exit_code if exit_code >= 0 else 255} {1 if cancel_cause else 0} {len(cases)} {len(files)}"
+    taken = {}
     for f in files:
         name = test_case_name(f)
-        st = byname.get(name, [None])
-        s += f" {hx(f)} {GROUND[kinds[f]]} {TAGMAP[tags.get(f, [None])[0]]} {hx(name) if name in byname else '-'} {st[0] or 'none'}"
+        # files whose names differ only in the replaced characters share a test-case name: their JUnit
+        # cases come in file order
+        k = taken.get(name, 0)
+        taken[name] = k + 1
+        lst = byname.get(name, [])
+        st = lst[k] if k < len(lst) else None
+        s += f" {hx(f)} {GROUND[kinds[f]]} {TAGMAP[tags.get(f, [None])[0]]} {hx(name) if k < len(lst) else '-'} {st or 'none'}"
     s += f" {len(evs)} " + " ".join(evs) if evs else " 0"
     return s
 
@@ -436,6 +442,21 @@ def profile_cli16(rnd, n, thorough, out):
                 out.add(f"serial {1 if ff else 0} {len(files)} " + " ".join(GROUND[kinds[f]] for f in files), impl, tag, None)
             out.add(climon_case(jobs, keep, r.exit, cause, files, kinds, tags, ju, evs), "accept", tag,
                     ("C16|" + oracle) if oracle else None)
+        # two files whose paths differ only in the characters the test-case name replaces: both are
+        # selected, run and reported (serial mode; parallel mode refuses such a set)
+        if si % 3 == 0:
+            cwd2 = fresh_dir(f"c16n_{si}")
+            os.makedirs(os.path.join(cwd2, "t"), exist_ok=True)
+            pair = ["t/load-1.slt", "t/load_1.slt", "t/other.slt"]
+            kinds2 = {pair[0]: rnd.choice(["pass", "fail"]), pair[1]: rnd.choice(["pass", "fail", "mismatch"]), pair[2]: "pass"}
+            for f in pair:
+                open(os.path.join(cwd2, f), "w").write(file_text(f, kinds2[f], rnd, extra=False))
+            files2 = sorted(pair)
+            r, tags, ju, evs, cause, oracle = cli_run_set(cwd2, files2, kinds2, 0, False, False, rnd, latency=0)
+            out.add(climon_case(0, False, r.exit, cause, files2, kinds2, tags, ju, evs), "accept",
+                    f"cli16 set={si} serial, two files with one test-case name kinds={[kinds2[f] for f in files2]}",
+                    ("C16|" + oracle) if oracle else None)
+            shutil.rmtree(cwd2, ignore_errors=True)
         # a cancelled file makes the exit status non-zero: Ctrl-C while the LAST file is running
         if all(kinds[f] == "pass" for f in files):
             r0 = cli_run_set(cwd, files, kinds, 0, False, False, rnd, latency=0)[0]
@@ -522,6 +543,30 @@ def profile_cli19(rnd, n, thorough, out):
                     if oracle is None and t_owner not in ("cancelled", "ok"):
                         oracle = f"the file in flight at Ctrl-C ({owner}) is reported {t_owner}"
             out.add(climon_case(jobs, False, r.exit, True, files, kinds, tags, ju, evs), "accept", tag,
+                    ("C19|" + oracle) if oracle else None)
+        # ---- Ctrl-C while a file waits in a `sleep` record (or a retry back-off): the wait is cut short,
+        # nothing more is sent for the file, the CLI exits promptly
+        for f in files:
+            m = f" -- F{f}"
+            open(os.path.join(cwd, f), "w").write(
+                f"statement ok\nins 1{m}\n\nsleep 1500ms\n\nstatement ok\nins 2{m}\n\n"
+                f"statement ok retry 2 backoff 1500ms\nfail{m}\n")
+        kinds3 = {f: "fail" for f in files}     # (run to completion, each of these files fails in the end)
+        for k in ([1] if jobs == 0 else [len(files) + 1, len(files) + 2]):
+            t0 = time.time()
+            r, tags, ju, evs, cause, oracle = cli_run_set(cwd, files, kinds3, jobs, False, False, rnd, sigint_at=k, latency=0)
+            took = time.time() - t0
+            sig = [e for e in r.events if e["ev"] == "sigint"]
+            if oracle is None and sig:
+                late = [bytes.fromhex(e["args"][1]).decode("utf-8", "replace") for e in r.events
+                        if e["ev"] == "sql" and e["t"] > sig[0]["t"] + 1_000_000_000
+                        and not re.match(r"(CREATE|DROP) DATABASE", bytes.fromhex(e["args"][1]).decode("utf-8", "replace"))]
+                if late:
+                    oracle = f"SQL of a test file was still sent more than 1 s after Ctrl-C (during a wait): {late[:3]}"
+                elif r.exit == 0:
+                    oracle = "exit status 0 although the run was interrupted by Ctrl-C"
+            out.add(climon_case(jobs, False, r.exit, True, files, kinds3, tags, ju, evs), "accept",
+                    f"cli19 set={si} jobs={jobs} sigint_at={k} during a sleep / back-off (took {took:.1f} s)",
                     ("C19|" + oracle) if oracle else None)
         # ---- fail-fast: the failing file fails on its first request while the others are still busy
         positions = range(nfiles) if jobs == 0 else range(min(jobs, nfiles))
